@@ -1,0 +1,246 @@
+//go:build verif
+
+// Contracts for package ipldbindcode (comment-only; read by /verif/vcgo, build tag verif).
+// Properties C12 (parsers never crash on arbitrary bytes) and the decidable part of C11.
+package ipldbindcode
+
+// ---------- schema transcription (ledger.ipldsch, representation tuple) : TRUSTED ----------
+// kind constants: Transaction=0 Entry=1 Block=2 Subset=3 Epoch=4 Rewards=5 DataFrame=6
+// Epoch       [kind, epoch, subsets[Link]]
+// Subset      [kind, first, last, blocks[Link]]
+// Block       [kind, slot, shredding[[entryEndIdx, shredEndIdx]], entries[Link], meta[parent_slot, blocktime, block_height?], rewards Link]
+// Rewards     [kind, slot, data DataFrame]
+// Entry       [kind, numHashes, hash bytes, transactions[Link]]
+// Transaction [kind, data DataFrame, metadata DataFrame, slot, index?]
+// DataFrame   [kind, hash?, index?, total?, data bytes, next?[Link]]
+
+// an integer as the CBOR library returns it (uint64 for >= 0, int64 for < 0) and its value as stored by the decoders
+//@ spec func isInt(v any) bool = typeis(v, uint64) || typeis(v, int64)
+//@ spec func u64of(v any) uint64 = ite(typeis(v, uint64), v.(uint64), uint64(v.(int64)))
+
+// a CBOR link: tag 42 whose content is a byte string (first byte = multibase prefix 0x00, dropped by the decoder)
+//@ spec func isLink(v any) bool = typeis(v, cbor.Tag) && v.(cbor.Tag).Number == 42 && typeis(v.(cbor.Tag).Content, []byte)
+
+//@ func (_array) Get
+//@   mode int
+//@   requires i >= 0
+//@   ensures result1 == (i < len(a))
+//@   ensures result1 ==> result0 == a[i]
+//@   ensures !result1 ==> result0 == nil
+
+//@ func getUint64FromInterface
+//@   mode int
+//@   pure
+//@   ensures (result1 == nil) == isInt(i)
+//@   ensures result1 == nil ==> result0 == u64of(i)
+//@   ensures result1 != nil ==> result0 == 0
+
+//@ func decodeCborLinkListFromAny
+//@   mode int
+//@   ensures maybeList == nil ==> result1 == nil && len(result0) == 0
+//@   ensures result1 == nil && maybeList != nil ==> typeis(maybeList, []interface{}) && len(result0) == len(maybeList.([]interface{}))
+//@   ensures result1 == nil && maybeList != nil ==> forall k int :: 0 <= k && k < len(result0) ==> isLink(maybeList.([]interface{})[k])
+//@   ensures result1 != nil ==> len(result0) == 0
+//@   loop 0 invariant len(list) == rangeidx0
+//@   loop 0 invariant forall k int :: 0 <= k && k < rangeidx0 ==> isLink(subsetsArray[k])
+
+// optional nullable Int at position k of tuple arr stored in a **int field f (old value fo):
+// present and non-null  ==> must be an integer, f points to a fresh cell holding its value;  absent or null ==> f untouched.
+//@ spec func optInt(arr _array, k int, f **int, fo **int) bool = ite(len(arr) > k && arr[k] != nil, isInt(arr[k]) && f != nil && *f != nil && **f == int(u64of(arr[k])), f == fo)
+
+//@ func (*DataFrame) fromCBORArray
+//@   mode int
+//@   modifies x
+//@   ensures result == nil ==> x.Kind == 6
+//@   ensures result == nil ==> len(arr) >= 5 && isInt(arr[0]) && u64of(arr[0]) == 6
+//@   ensures result == nil ==> optInt(arr, 1, x.Hash, old(x.Hash))
+//@   ensures result == nil ==> optInt(arr, 2, x.Index, old(x.Index))
+//@   ensures result == nil ==> optInt(arr, 3, x.Total, old(x.Total))
+//@   ensures result == nil ==> typeis(arr[4], []byte) && len(x.Data) == len(arr[4].([]byte)) && ref(x.Data) == ref(arr[4].([]byte))
+//@   ensures result == nil && len(arr) <= 5 ==> x.Next == old(x.Next)
+//@   ensures result == nil && len(arr) > 5 ==> x.Next != nil && *x.Next != nil
+//@   ensures result == nil && len(arr) > 5 && arr[5] == nil ==> len(**x.Next) == 0
+//@   ensures result == nil && len(arr) > 5 && arr[5] != nil ==> typeis(arr[5], []interface{}) && len(**x.Next) == len(arr[5].([]interface{}))
+
+//@ func (*DataFrame) UnmarshalCBOR
+//@   mode int
+//@   modifies x
+//@   ensures result == nil ==> x.Kind == 6
+//@   ensures result == nil ==> len(arr) >= 5 && isInt(arr[0]) && u64of(arr[0]) == 6
+//@   ensures result == nil ==> optInt(arr, 1, x.Hash, old(x.Hash))
+//@   ensures result == nil ==> optInt(arr, 2, x.Index, old(x.Index))
+//@   ensures result == nil ==> optInt(arr, 3, x.Total, old(x.Total))
+//@   ensures result == nil ==> typeis(arr[4], []byte) && len(x.Data) == len(arr[4].([]byte)) && ref(x.Data) == ref(arr[4].([]byte))
+//@   ensures result == nil && len(arr) <= 5 ==> x.Next == old(x.Next)
+//@   ensures result == nil && len(arr) > 5 ==> x.Next != nil && *x.Next != nil
+//@   ensures result == nil && len(arr) > 5 && arr[5] == nil ==> len(**x.Next) == 0
+//@   ensures result == nil && len(arr) > 5 && arr[5] != nil ==> typeis(arr[5], []interface{}) && len(**x.Next) == len(arr[5].([]interface{}))
+
+// a [Link] field l decoded from element v: null ==> empty list; otherwise v is an array and l has one link per element
+//@ spec func linkList(v any, l List__Link) bool = ite(v == nil, len(l) == 0, typeis(v, []interface{}) && len(l) == len(v.([]interface{})))
+
+//@ func (*Epoch) UnmarshalCBOR
+//@   mode int
+//@   modifies x
+//@   ensures result == nil ==> x.Kind == 4
+//@   ensures result == nil ==> len(arr) >= 3 && isInt(arr[0]) && u64of(arr[0]) == 4
+//@   ensures result == nil ==> isInt(arr[1]) && x.Epoch == int(u64of(arr[1]))
+//@   ensures result == nil ==> linkList(arr[2], x.Subsets)
+
+//@ func (*Subset) UnmarshalCBOR
+//@   mode int
+//@   modifies x
+//@   ensures result == nil ==> x.Kind == 3
+//@   ensures result == nil ==> len(arr) >= 4 && isInt(arr[0]) && u64of(arr[0]) == 3
+//@   ensures result == nil ==> isInt(arr[1]) && x.First == int(u64of(arr[1]))
+//@   ensures result == nil ==> isInt(arr[2]) && x.Last == int(u64of(arr[2]))
+//@   ensures result == nil ==> linkList(arr[3], x.Blocks)
+
+//@ func (*Entry) UnmarshalCBOR
+//@   mode int
+//@   modifies x
+//@   ensures result == nil ==> x.Kind == 1
+//@   ensures result == nil ==> len(arr) >= 4 && isInt(arr[0]) && u64of(arr[0]) == 1
+//@   ensures result == nil ==> isInt(arr[1]) && x.NumHashes == int(u64of(arr[1]))
+//@   ensures result == nil ==> typeis(arr[2], []byte) && len(x.Hash) == len(arr[2].([]byte)) && ref(x.Hash) == ref(arr[2].([]byte))
+//@   ensures result == nil ==> linkList(arr[3], x.Transactions)
+
+// (the conversion _array(v.([]interface{})) in the clauses below mirrors the code, which converts the same way before
+//  reading the elements)
+// a DataFrame value d decoded (by fromCBORArray on a zero DataFrame) from the tuple a: shape (D1, D3, buffers, lists) ...
+//@ spec func optPtr(arr _array, k int, f **int) bool = ite(len(arr) > k && arr[k] != nil, isInt(arr[k]) && f != nil && *f != nil, f == nil)
+//@ spec func dfShape(a _array, d DataFrame) bool = d.Kind == 6 && len(a) >= 5 && isInt(a[0]) && u64of(a[0]) == 6 && optPtr(a, 1, d.Hash) && optPtr(a, 2, d.Index) && optPtr(a, 3, d.Total) && typeis(a[4], []byte) && len(d.Data) == len(a[4].([]byte)) && ref(d.Data) == ref(a[4].([]byte)) && (len(a) <= 5 ==> d.Next == nil) && (len(a) > 5 ==> d.Next != nil && *d.Next != nil && linkList(a[5], **d.Next))
+// ... and the values of the optional integers (D2)
+//@ spec func dfVals(a _array, d DataFrame) bool = optInt(a, 1, d.Hash, nil) && optInt(a, 2, d.Index, nil) && optInt(a, 3, d.Total, nil)
+
+//@ func (*Rewards) UnmarshalCBOR
+//@   mode int
+//@   modifies x
+//@   ensures result == nil ==> x.Kind == 5
+//@   ensures result == nil ==> len(arr) >= 3 && isInt(arr[0]) && u64of(arr[0]) == 5
+//@   ensures result == nil ==> isInt(arr[1]) && x.Slot == int(u64of(arr[1]))
+//@   ensures result == nil ==> typeis(arr[2], []interface{}) && dfShape(_array(arr[2].([]interface{})), x.Data)
+//@   ensures result == nil ==> dfVals(_array(arr[2].([]interface{})), x.Data)
+
+//@ func (*Transaction) UnmarshalCBOR
+//@   mode int
+//@   modifies x
+//@   ensures result == nil ==> x.Kind == 0
+//@   ensures result == nil ==> len(arr) >= 4 && isInt(arr[0]) && u64of(arr[0]) == 0
+//@   ensures result == nil ==> typeis(arr[1], []interface{}) && dfShape(_array(arr[1].([]interface{})), x.Data)
+//@   ensures result == nil ==> dfVals(_array(arr[1].([]interface{})), x.Data)
+//@   ensures result == nil ==> typeis(arr[2], []interface{}) && dfShape(_array(arr[2].([]interface{})), x.Metadata)
+//@   ensures result == nil ==> dfVals(_array(arr[2].([]interface{})), x.Metadata)
+//@   ensures result == nil ==> isInt(arr[3]) && x.Slot == int(u64of(arr[3]))
+//@   ensures result == nil ==> optInt(arr, 4, x.Index, old(x.Index))
+
+// SlotMeta m decoded from the tuple a = [parent_slot, blocktime, block_height?]
+//@ spec func metaOf(a _array, m SlotMeta) bool = len(a) >= 2 && isInt(a[0]) && m.Parent_slot == int(u64of(a[0])) && isInt(a[1]) && m.Blocktime == int(u64of(a[1])) && optInt(a, 2, m.Block_height, nil)
+// shape of a Shredding element v = [entryEndIdx, shredEndIdx]
+//@ spec func shredShape(v any) bool = typeis(v, []interface{}) && len(v.([]interface{})) >= 2 && isInt(_array(v.([]interface{}))[0]) && isInt(_array(v.([]interface{}))[1])
+// NOT DISCHARGED (solver timeout on the loop-invariant step, see report): the element-wise value mapping
+//   forall k :: 0 <= k < len(arr[2]) ==> x.Shredding[n0+k].EntryEndIdx == int(u64of(arr[2][k][0])) && x.Shredding[n0+k].ShredEndIdx == int(u64of(arr[2][k][1]))
+
+// NOTE: x.Shredding is appended to, not reset: the decoded list is the suffix after the entry-time content.
+//@ func (*Block) UnmarshalCBOR
+//@   mode int
+//@   modifies x
+//@   ensures result == nil ==> x.Kind == 2
+//@   ensures result == nil ==> len(arr) >= 6 && isInt(arr[0]) && u64of(arr[0]) == 2
+//@   ensures result == nil ==> isInt(arr[1]) && x.Slot == int(u64of(arr[1]))
+//@   ensures result == nil ==> typeis(arr[2], []interface{}) && len(x.Shredding) == old(len(x.Shredding)) + len(arr[2].([]interface{}))
+//@   ensures result == nil ==> forall k int :: 0 <= k && k < len(arr[2].([]interface{})) ==> shredShape(arr[2].([]interface{})[k])
+//@   ensures result == nil ==> linkList(arr[3], x.Entries)
+//@   ensures result == nil ==> typeis(arr[4], []interface{}) && metaOf(_array(arr[4].([]interface{})), x.Meta)
+//@   ensures result == nil ==> isLink(arr[5])
+//@   loop 0 invariant x.Kind == 2 && len(arr) >= 3 && isInt(arr[0]) && u64of(arr[0]) == 2 && isInt(arr[1]) && x.Slot == int(u64of(arr[1]))
+//@   loop 0 invariant len(x.Shredding) == old(len(x.Shredding)) + rangeidx0
+//@   loop 0 invariant forall k int :: 0 <= k && k < rangeidx0 ==> shredShape(shreddingArray[k])
+
+// ---------- accessors (methods.go) ----------
+
+//@ func (DataFrame) HasHash
+//@   mode int
+//@   ensures result == (n.Hash != nil && *n.Hash != nil)
+
+//@ func (DataFrame) GetHash
+//@   mode int
+//@   ensures result1 == (n.Hash != nil && *n.Hash != nil)
+//@   ensures result1 ==> result0 == uint64(**n.Hash)
+//@   ensures !result1 ==> result0 == 0
+
+//@ func (DataFrame) HasIndex
+//@   mode int
+//@   ensures result == (n.Index != nil && *n.Index != nil)
+
+//@ func (DataFrame) GetIndex
+//@   mode int
+//@   ensures result1 == (n.Index != nil && *n.Index != nil)
+//@   ensures result1 ==> result0 == **n.Index
+//@   ensures !result1 ==> result0 == 0
+
+//@ func (DataFrame) HasTotal
+//@   mode int
+//@   ensures result == (n.Total != nil && *n.Total != nil)
+
+//@ func (DataFrame) GetTotal
+//@   mode int
+//@   ensures result1 == (n.Total != nil && *n.Total != nil)
+//@   ensures result1 ==> result0 == **n.Total
+//@   ensures !result1 ==> result0 == 0
+
+//@ func (DataFrame) Bytes
+//@   mode int
+//@   ensures len(result) == len(n.Data) && ref(result) == ref(n.Data)
+
+//@ func (DataFrame) HasNext
+//@   mode int
+//@   ensures result == (n.Next != nil && *n.Next != nil && len(**n.Next) > 0)
+
+//@ func (DataFrame) GetNext
+//@   mode int
+//@   ensures result1 ==> n.Next != nil && *n.Next != nil && len(result0) == len(**n.Next) && ref(result0) == ref(**n.Next)
+//@   ensures !result1 ==> len(result0) == 0
+
+//@ func (Transaction) HasIndex
+//@   mode int
+//@   ensures result == (n.Index != nil && *n.Index != nil)
+
+//@ func (Transaction) GetPositionIndex
+//@   mode int
+//@   ensures result1 == (n.Index != nil && *n.Index != nil)
+//@   ensures result1 ==> result0 == **n.Index
+//@   ensures !result1 ==> result0 == 0
+
+//@ func (Block) GetBlockHeight
+//@   mode int
+//@   ensures result1 == (n.Meta.Block_height != nil && *n.Meta.Block_height != nil)
+//@   ensures result1 ==> result0 == uint64(**n.Meta.Block_height)
+//@   ensures !result1 ==> result0 == 0
+
+//@ func (SlotMeta) HasBlockHeight
+//@   mode int
+//@   ensures result == (n.Block_height != nil && *n.Block_height != nil)
+
+//@ func (SlotMeta) GetBlockHeight
+//@   mode int
+//@   ensures result1 == (n.Block_height != nil && *n.Block_height != nil)
+//@   ensures result1 ==> result0 == uint64(**n.Block_height)
+//@   ensures !result1 ==> result0 == 0
+
+// ---------- signature readers (methods.go) ----------
+// bin.Decoder (gagliardetto/binary) is third-party: ReadCompactU16 returns 0..65535 when err == nil (compact-u16.go:75),
+// a fact vcgo does not know (external results are arbitrary) -- see the report for the residual `make` obligation.
+
+// `modifies buf`: buf is handed to the third-party decoder (which only reads it; vcgo assumes externals may write slices).
+//@ func readAllSignatures
+//@   mode int
+//@   modifies buf
+//@   ensures result1 == nil ==> len(result0) >= 1
+//@   ensures result1 != nil ==> len(result0) == 0
+//@   loop 0 invariant 0 <= i && i <= numSigs && len(sigs) == numSigs
+//@   loop 0 decreases numSigs - i
+
+//@ func readFirstSignature
+//@   mode int
+//@   modifies buf
